@@ -5,10 +5,11 @@ import random
 import numpy as np
 
 from .. import gen, impl, oracle, ser, stream
+from . import c08_sparse
 
 ID = "C08"
 LEVEL = "proof"
-PROPS_MODULE = "SymmModel.Props.C08All5"
+PROPS_MODULE = "SymmModel.Props.C08All6"
 THEOREMS = [
     "SymmModel.C08.locateAll_total",
     "SymmModel.C08.toDenseA_get",
@@ -120,9 +121,37 @@ THEOREMS = [
     "SymmModel.C08.unfuse_img",
     "SymmModel.C08.expand_img",
     "SymmModel.C08.img_comp",
-    "SymmModel.C08.reshape_toDense_plan"
+    "SymmModel.C08.reshape_toDense_plan",
+    "SymmModel.C08.fillMissing_ok",
+    "SymmModel.C08.fillMissing_blocks",
+    "SymmModel.C08.fillMissing_frame",
+    "SymmModel.C08.fillMissing_elem",
+    "SymmModel.C08.fillMissing_toDense",
+    "SymmModel.C08.fillMissing_valid",
+    "SymmModel.C08.fillMissing_sectors",
+    "SymmModel.C08.fillMissing_sectors_exact",
+    "SymmModel.C08.fillMissing_sparsity",
+    "SymmModel.C08.fillMissing_idem",
+    "SymmModel.C08.dropMissing_blocks",
+    "SymmModel.C08.dropMissing_noZero",
+    "SymmModel.C08.dropMissing_elem",
+    "SymmModel.C08.dropMissing_toDense",
+    "SymmModel.C08.dropMissing_valid",
+    "SymmModel.C08.dropMissing_idem",
+    "SymmModel.C08.drop_fill",
+    "SymmModel.C08.fill_drop",
+    "SymmModel.C08.allclose_iff_elem",
+    "SymmModel.C08.allclose_refl",
+    "SymmModel.C08.allclose_symm",
+    "SymmModel.C08.allclose_trans",
+    "SymmModel.C08.allclose_toDense",
+    "SymmModel.C08.allclose_of_obsEq",
+    "SymmModel.C08.allclose_fill_drop",
+    "SymmModel.C08.setParams_getParams",
+    "SymmModel.C08.setParams_lookup",
+    "SymmModel.C08.setParams_sectors"
 ]
-LEAN_FILES = ["SymmModel.Props.C08", "SymmModel.Proofs.DenseLemmas", "SymmModel.Props.C08b", "SymmModel.Props.C08All", "SymmModel.Proofs.DenseMore", "SymmModel.Props.C08c", "SymmModel.Props.C08All2", "SymmModel.Proofs.Dense3a", "SymmModel.Proofs.Dense3b", "SymmModel.Proofs.Dense3d", "SymmModel.Props.C08d", "SymmModel.Props.C08All3", "SymmModel.Proofs.Dense4a", "SymmModel.Proofs.Dense4b", "SymmModel.Proofs.Dense4c", "SymmModel.Props.C08e", "SymmModel.Props.C08All4", "SymmModel.Proofs.Dense5a", "SymmModel.Proofs.Dense5f", "SymmModel.Props.C08f", "SymmModel.Props.C08All5", "SymmModel.Proofs.Dense6a", "SymmModel.Proofs.Dense6b", "SymmModel.Proofs.Dense6c", "SymmModel.Proofs.Dense6d"]
+LEAN_FILES = ["SymmModel.Props.C08", "SymmModel.Proofs.DenseLemmas", "SymmModel.Props.C08b", "SymmModel.Props.C08All", "SymmModel.Proofs.DenseMore", "SymmModel.Props.C08c", "SymmModel.Props.C08All2", "SymmModel.Proofs.Dense3a", "SymmModel.Proofs.Dense3b", "SymmModel.Proofs.Dense3d", "SymmModel.Props.C08d", "SymmModel.Props.C08All3", "SymmModel.Proofs.Dense4a", "SymmModel.Proofs.Dense4b", "SymmModel.Proofs.Dense4c", "SymmModel.Props.C08e", "SymmModel.Props.C08All4", "SymmModel.Proofs.Dense5a", "SymmModel.Proofs.Dense5f", "SymmModel.Props.C08f", "SymmModel.Props.C08All5", "SymmModel.Proofs.Dense6a", "SymmModel.Proofs.Dense6b", "SymmModel.Proofs.Dense6c", "SymmModel.Proofs.Dense6d", "SymmModel.Model.Sparse", "SymmModel.Proofs.SparseLemmas", "SymmModel.Props.C08g", "SymmModel.Props.C08All6"]
 PLANNED = []
 RULE = ("every listed operation on random abelian arrays (all symmetries, static/generic, sparse, real/complex) "
         "through method / symmray function / autoray dispatch; binary operations on operands with different stored "
@@ -135,6 +164,9 @@ ANCHORS = {"abelian_core.py": ["transpose", "conj", "dagger", "squeeze", "expand
                              "_do_reduction", "_do_unary_op", "norm"],
            "interface.py": ["log", "abs", "sqrt", "transpose", "conj"]}
 ASSUMPTIONS = ["numpy elementwise arithmetic is exact on the small integer / dyadic data used"]
+ASSUMPTIONS = list(ASSUMPTIONS) + list(c08_sparse.ASSUMPTIONS_SPARSE)
+for _f, _n in c08_sparse.ANCHORS_SPARSE.items():
+    ANCHORS[_f] = ANCHORS.get(_f, []) + [n for n in _n if n not in ANCHORS.get(_f, [])]
 
 ARR_OPS = ["transpose", "conj", "dagger", "squeeze", "expand_dims", "smul", "sdiv", "neg", "add", "sub", "mul",
            "multiply_diagonal", "sum", "norm2", "to_dense", "abs"]
@@ -475,7 +507,11 @@ def run(ctx):
         for f in fails:
             ctx.violation("blockvector: " + f["what"], f, op="blockvector", triggers=[f["what"].split(":")[0]])
     ctx.mark_nontrivial("blockvector-functions")
+    # sparsity management and scalar protocol (fill/drop_missing_blocks, get_sparsity, allclose, item, params)
+    c08_sparse.run_c08_sparse(ctx)
 
 
 def replay(ctx, payload):
+    if payload.get("case", {}).get("kind") == "sparse":
+        return c08_sparse.replay_c08_sparse(ctx, payload)
     return stream.replay(ctx, payload, canon_kw=dict(drop_zero=True))
